@@ -64,13 +64,15 @@ type tr struct {
 	info *types.Info
 	pkg  *types.Package
 	// translated function names (Go object -> Lean name) and failures
-	done    map[types.Object]string
-	failed  map[types.Object]string
-	decls   map[types.Object]*ast.FuncDecl
-	order   []string          // emitted definitions, in dependency order
-	text    map[string]string // lean name -> text
-	optRes  map[string]bool   // lean name -> result is Option
-	nparams map[string]int
+	done     map[types.Object]string
+	failed   map[types.Object]string
+	decls    map[types.Object]*ast.FuncDecl
+	order    []string          // emitted definitions, in dependency order
+	text     map[string]string // lean name -> text
+	optRes   map[string]bool   // lean name -> result is Option
+	nparams  map[string]int
+	shape    map[string]string // buffer methods: pure | option | res
+	readonly map[string]bool   // buffer methods: never changes heap or header
 }
 
 func basicTy(b *types.Basic) ty {
@@ -174,6 +176,8 @@ func (t *tr) tyOf(x types.Type) ty {
 type env struct {
 	vars map[types.Object]string // Go variable -> Lean expression (a local name)
 	n    *int
+	hv   string // buffer methods: current heap variable
+	bv   string // buffer methods: current header variable of the receiver's buffer
 }
 
 func (e env) clone() env {
@@ -181,7 +185,7 @@ func (e env) clone() env {
 	for k, v := range e.vars {
 		m[k] = v
 	}
-	return env{m, e.n}
+	return env{m, e.n, e.hv, e.bv}
 }
 
 func (e env) fresh(base string) string {
@@ -202,7 +206,8 @@ type convCtx struct {
 type body struct {
 	t      *tr
 	cc     *convCtx
-	option bool // some float->int conversion occurred: result is Option
+	bm     *bufCtx // non-nil: a method of Buffer[T] / C[T] is being translated
+	option bool    // some float->int conversion occurred: result is Option
 	inLoop bool
 }
 
@@ -248,6 +253,11 @@ func (b *body) expr(e ast.Expr, en env, bs *binds) (string, ty) {
 			return "False", et
 		}
 		fail("constant of kind %v", tv.Value.Kind())
+	}
+	if b.bm != nil {
+		if s, st, ok := b.bufExpr(e, en, bs); ok {
+			return s, st
+		}
 	}
 	switch x := e.(type) {
 	case *ast.ParenExpr:
@@ -387,7 +397,11 @@ func (b *body) convert(to ty, a string, from ty, bs *binds, en env) (string, ty)
 		return fmt.Sprintf("(FV.conv %s %s)", to.lean, a), to
 	case from.c == cFloat && to.c == cInt:
 		n := en.fresh("t")
-		*bs = append(*bs, fmt.Sprintf("(toIntTy %s %s).bind fun %s =>", to.lean, a, n))
+		if b.bm != nil && b.bm.res {
+			*bs = append(*bs, fmt.Sprintf("(Res.ofUnspec (toIntTy %s %s)).bind fun _ %s =>", to.lean, a, n))
+		} else {
+			*bs = append(*bs, fmt.Sprintf("(toIntTy %s %s).bind fun %s =>", to.lean, a, n))
+		}
 		b.option = true
 		return n, to
 	}
@@ -498,7 +512,11 @@ func (b *body) callResult(name string, args []string, et ty, bs *binds, en env) 
 	call := "(" + name + " " + strings.Join(args, " ") + ")"
 	if b.t.optRes[name] {
 		n := en.fresh("r")
-		*bs = append(*bs, fmt.Sprintf("%s.bind fun %s =>", call, n))
+		if b.bm != nil && b.bm.res {
+			*bs = append(*bs, fmt.Sprintf("(Res.ofUnspec %s).bind fun _ %s =>", call, n))
+		} else {
+			*bs = append(*bs, fmt.Sprintf("%s.bind fun %s =>", call, n))
+		}
 		b.option = true
 		return n, et
 	}
@@ -521,9 +539,17 @@ func (b *body) stmts(list []ast.Stmt, rest [][]ast.Stmt, en env, ind string) str
 			}
 			return ind + "RET(" + *b.cc.stored + ")"
 		}
+		if b.bm != nil && b.bm.res && b.bm.void {
+			return ind + fmt.Sprintf("Res.ok %s (%s, ())", en.hv, en.bv)
+		}
 		fail("control reaches the end of the function without a return")
 	}
 	s, tail := list[0], list[1:]
+	if b.bm != nil && b.bm.res {
+		if out, ok := b.bufStmt(s, tail, rest, en, ind); ok {
+			return out
+		}
+	}
 	pre := func(bs binds) string {
 		out := ""
 		for _, x := range bs {
@@ -980,7 +1006,7 @@ func (t *tr) scalarFunc(d *ast.FuncDecl) (why string) {
 		fail("type parameters outside integer / float classes")
 	}
 	cnt := 0
-	en := env{map[types.Object]string{}, &cnt}
+	en := env{vars: map[types.Object]string{}, n: &cnt}
 	addParam := func(v *types.Var) {
 		pt := t.tyOf(v.Type())
 		n := "p_" + v.Name()
@@ -1013,7 +1039,7 @@ func (t *tr) scalarFunc(d *ast.FuncDecl) (why string) {
 	if b.option {
 		resTy = "Option " + resTy
 	}
-	def := fmt.Sprintf("/-- %s (%s) -/\ndef %s%s : %s :=\n%s\n", obj.Name(), filepath.Base(t.fset.Position(d.Pos()).Filename), strings.TrimPrefix(name, "Sig.Gen."), params, resTy, retWrap(text, b.option))
+	def := fmt.Sprintf("/-- %s (%s) -/\n@[gen] def %s%s : %s :=\n%s\n", obj.Name(), filepath.Base(t.fset.Position(d.Pos()).Filename), strings.TrimPrefix(name, "Sig.Gen."), params, resTy, retWrap(text, b.option))
 	t.done[obj] = name
 	t.optRes[name] = b.option
 	t.text[name] = def
@@ -1123,9 +1149,9 @@ func (t *tr) convFunc(d *ast.FuncDecl) (facts []string, why string) {
 	}
 	cc.facts["if length == 0 { return 0 }"] = true
 	cnt := 0
-	en := env{map[types.Object]string{}, &cnt}
+	en := env{vars: map[types.Object]string{}, n: &cnt}
 	text := b.stmts(list[3:], nil, en, "  ")
-	def := fmt.Sprintf("/-- per-sample kernel of %s (%s), with its loop-invariant prologue -/\ndef %s%s : %s :=\n%s\n", obj.Name(), filepath.Base(t.fset.Position(d.Pos()).Filename), strings.TrimPrefix(name, "Sig.Gen."), params, resTy, retWrap(text, true))
+	def := fmt.Sprintf("/-- per-sample kernel of %s (%s), with its loop-invariant prologue -/\n@[gen] def %s%s : %s :=\n%s\n", obj.Name(), filepath.Base(t.fset.Position(d.Pos()).Filename), strings.TrimPrefix(name, "Sig.Gen."), params, resTy, retWrap(text, true))
 	t.text[name] = def
 	t.order = append(t.order, name)
 	for f := range cc.facts {
@@ -1188,7 +1214,8 @@ func main() {
 		os.Exit(2)
 	}
 	t := &tr{fset: fset, info: info, pkg: pkg, done: map[types.Object]string{}, failed: map[types.Object]string{},
-		decls: map[types.Object]*ast.FuncDecl{}, text: map[string]string{}, optRes: map[string]bool{}}
+		decls: map[types.Object]*ast.FuncDecl{}, text: map[string]string{}, optRes: map[string]bool{},
+		shape: map[string]string{}, readonly: map[string]bool{}}
 	var all []*ast.FuncDecl
 	for _, f := range files {
 		for _, d := range f.Decls {
@@ -1226,6 +1253,10 @@ func main() {
 			continue
 		}
 		if _, ok := t.failed[obj]; ok {
+			continue
+		}
+		if owner, ok := bufName(obj); ok && (owner == "Buffer" || owner == "C") {
+			t.bufMethod(fd)
 			continue
 		}
 		t.scalarFunc(fd)
